@@ -287,7 +287,14 @@ func (w *World) onRemoval(kind, eniID string) {
 		case age < 10*time.Minute:
 			w.run.Violate("C11", "leak-gc", "collector-touched-young-interface", "%s of %s created %s ago (grace period 10 min)", kind, eniID, age.Round(time.Millisecond))
 		case len(refs) > 0:
-			w.run.Violate("C11", "leak-gc", "collector-touched-referenced-interface", "%s of %s which record(s) %s list", kind, eniID, recNames(refs))
+			fp := "collector-touched-referenced-interface"
+			if t, ok := w.cloud.adoptedAt[eniID]; ok && time.Since(t) < 10*time.Second+time.Duration(w.cfg.CacheLagMs)*time.Millisecond {
+				// K10: the orphan of a timed-out create, older than the grace period, was handed to a
+				// retry through the idempotency token and recorded moments before the collector,
+				// which had decided (or reads a cache that has not seen the record yet), deleted it
+				fp += "@adopted-through-token-moments-ago"
+			}
+			w.run.Violate("C11", "leak-gc", fp, "%s of %s which record(s) %s list", kind, eniID, recNames(refs))
 		default:
 			w.run.Probe("leak-collected")
 		}
